@@ -7,6 +7,7 @@ import RtcVerif.Proofs.C02Fold
 import RtcVerif.Proofs.C04Elem
 import RtcVerif.Proofs.C02KeepSoft
 import RtcVerif.Proofs.C02Example
+import RtcVerif.Proofs.C02Book
 import Mathlib.Algebra.Order.Field.Basic
 import Mathlib.Tactic.Linarith
 import Mathlib.Tactic.Ring
@@ -645,5 +646,150 @@ example : ObjNoDegr false (1/2) 0 [fun _ => 3, fun k => if k = 0 then 7/2 else 1
   subst ha hb
   simp
   norm_num
+
+/-! ## the constraint bookkeeping of the code is the loop model
+
+`Gen/GpBookkeeping.lean` (generated from /repo on every run by harness/translate_c02.py) proves the
+statements of `__soft_to_hard_constraints`, of `optimize()` around the solve, of
+`__add_subproblem_objective_constraint` and of `constraints()` / `path_constraints()` equal to the
+statement-level reference `Model/C02Book.lean`; the theorems below prove that reference equal to the
+functions `insertCriticals` / `convertAll` of which `runLoopM` (`store_monotone`, `C02_no_degradation`)
+is composed. -/
+
+/-- `__soft_to_hard_constraints(goals, sym, is_path_goal)`: the selected store of every member `m < E`
+    becomes `convertAll` of that member's store with that member's solution (every non-critical goal enters
+    once, through the hard-constraint conversion and `storeOther`; critical goals are skipped); nothing else
+    — other members' indices, the other store, the row lists — is written.  `s m` is the solution of member
+    `m` as the code reads it: violation variables from `self.__results[m]["[path_]eps_<sym>_<j>"]`, function
+    values from `goal.function(self, m)` at the solver output. -/
+theorem book_soft_to_hard_is_convertAll {ρ : Type} (o : HOpts) (E nT : Nat) (R : Reads) (sym : Nat) (p : Bool)
+    (goals : List Goal) (B : Book ρ) (s : Nat → Sol)
+    (heps : ∀ m j i, (s m).eps j i = R.results m (epsName p sym j) i)
+    (hfv : ∀ m, ∀ g ∈ goals, ∀ i, (s m).fval g.fk i = R.fvalue m p g i) :
+    softToHardRef o E nT R sym p goals B
+      = B.putAll p (fun m => if m < E then convertAll o (nSteps p nT) (s m) (B.sel p m) goals else B.sel p m) := by
+  unfold softToHardRef
+  exact forRange_put p (fun m st => convertAll o (nSteps p nT) (s m) st goals) _
+    (fun B' m => softToHard_inner o nT R sym p m (s m) (heps m) goals 0 B' (hfv m)) E B
+
+/-- `_gp_update_constraint_store(store, hard_constraints)`: every member's store gets the critical goals
+    through `storeSelf` (`insertCriticals`), nothing else is written -/
+theorem book_insert_hard_is_insertCriticals {ρ : Type} (o : HOpts) (E nT : Nat) (p : Bool) (goals : List Goal)
+    (B : Book ρ) :
+    insertHard o E nT p p goals B
+      = B.putAll p (fun m => if m < E then insertCriticals o (nSteps p nT) (B.sel p m) goals else B.sel p m) := by
+  unfold insertHard
+  exact forRange_put p (fun _ st => insertCriticals o (nSteps p nT) st goals) _ (fun _ _ => rfl) E B
+
+/-- one pass of the default branch (`keep_soft_constraints` off) — `beforeSolveRef`, solve, `afterSolveRef` —
+    is exactly the step function of `runLoopM` over the index set (member, point / path), for every member
+    `m < E` and both stores -/
+theorem book_pass_is_loop_step {ρ : Type} (o : HOpts) (E nT : Nat) (R : Reads) (i : Nat)
+    (softOf : List Goal → Bool → Nat → List ρ) (goals pathGoals : List Goal) (row : ρ) (B : Book ρ)
+    (s : Nat × Bool → Sol)
+    (heps : ∀ p m j k, (s (m, p)).eps j k = R.results m (epsName p i j) k)
+    (hfvp : ∀ m, ∀ g ∈ goals, ∀ k, (s (m, false)).fval g.fk k = R.fvalue m false g k)
+    (hfvq : ∀ m, ∀ g ∈ pathGoals, ∀ k, (s (m, true)).fval g.fk k = R.fvalue m true g k)
+    (p : Bool) (m : Nat) (hm : m < E) :
+    (afterSolveRef o E nT R i false goals pathGoals row
+        (beforeSolveRef o E nT softOf goals pathGoals B)).sel p m
+      = convertAll o (nSteps p nT) (s (m, p))
+          (insertCriticals o (nSteps p nT) (B.sel p m) (if p then pathGoals else goals))
+          (if p then pathGoals else goals) := by
+  unfold afterSolveRef beforeSolveRef
+  simp only [Bool.false_eq_true, if_false]
+  rw [book_soft_to_hard_is_convertAll o E nT R i true pathGoals _ (fun m => s (m, true)) (heps true) hfvq,
+      book_soft_to_hard_is_convertAll o E nT R i false goals _ (fun m => s (m, false)) (heps false) hfvp,
+      book_insert_hard_is_insertCriticals, book_insert_hard_is_insertCriticals]
+  cases p <;> simp [Book.putAll, Book.sel, hm]
+
+/-- the `keep_soft_constraints` branch leaves both stores of every member as they are: the soft rows of the
+    priority are retained for each member and one objective row goes to the last member (its bounds:
+    `objRow`, `C02_keep_soft_no_degradation`) -/
+theorem book_keep_soft_stores_untouched {ρ : Type} (o : HOpts) (E nT : Nat) (R : Reads) (i : Nat)
+    (goals pathGoals : List Goal) (row : ρ) (B : Book ρ) (hE : 0 < E) :
+    let B' := afterSolveRef o E nT R i true goals pathGoals row B
+    B'.point = B.point ∧ B'.path = B.path ∧ B'.sub = B.sub ∧ B'.subPath = B.subPath
+      ∧ B'.prob (E - 1) = B.prob (E - 1) ++ B.sub (E - 1) ++ [row]
+      ∧ (∀ m, m + 1 < E → B'.prob m = B.prob m ++ B.sub m)
+      ∧ (∀ m, m < E → B'.probPath m = B.probPath m ++ B.subPath m) := by
+  have key : ∀ n (B0 : Book ρ),
+      let A := forRange n (fun (B : Book ρ) m =>
+        { B with prob := upd B.prob m (B.prob m ++ B.sub m),
+                 probPath := upd B.probPath m (B.probPath m ++ B.subPath m) }) B0
+      A.point = B0.point ∧ A.path = B0.path ∧ A.sub = B0.sub ∧ A.subPath = B0.subPath
+        ∧ (∀ m, A.prob m = if m < n then B0.prob m ++ B0.sub m else B0.prob m)
+        ∧ (∀ m, A.probPath m = if m < n then B0.probPath m ++ B0.subPath m else B0.probPath m) := by
+    intro n B0
+    induction n with
+    | zero => simp [forRange]
+    | succ n ih =>
+      have hstep : ∀ f : Book ρ → Nat → Book ρ, forRange (n + 1) f B0 = f (forRange n f B0) n := by
+        intro f
+        unfold forRange
+        rw [List.range_succ, List.foldl_append]
+        rfl
+      simp only [hstep]
+      obtain ⟨h1, h2, h3, h4, h5, h6⟩ := ih
+      refine ⟨h1, h2, h3, h4, ?_, ?_⟩
+      · intro m
+        simp only [upd]
+        by_cases hk : m = n
+        · subst hk
+          simp [h5, h3]
+        · have : (m < n + 1) = (m < n) := by
+            apply propext; constructor <;> intro h <;> omega
+          simp [hk, h5, this]
+      · intro m
+        simp only [upd]
+        by_cases hk : m = n
+        · subst hk
+          simp [h6, h4]
+        · have : (m < n + 1) = (m < n) := by
+            apply propext; constructor <;> intro h <;> omega
+          simp [hk, h6, this]
+  intro B'
+  obtain ⟨h1, h2, h3, h4, h5, h6⟩ := key E B
+  have hB' : B' = addObjectiveRef E row B := by
+    simp [B', afterSolveRef]
+  rw [hB']
+  unfold addObjectiveRef
+  refine ⟨h1, h2, h3, h4, ?_, ?_, ?_⟩
+  · have : E - 1 < E := by omega
+    simp [upd, h5, this]
+  · intro m hm
+    have h1' : m ≠ E - 1 := by omega
+    have h2' : m < E := by omega
+    simp [upd, h1', h5, h2']
+  · intro m hm
+    simp [h6, hm]
+
+/-- the resets of `optimize()`: whatever an earlier `optimize()` on the same instance left behind, the
+    first priority starts from empty stores and no retained rows, for every member -/
+theorem book_reset_empty {ρ : Type} (B : Book ρ) (p : Bool) (m : Nat) :
+    (resetRef B).sel p m = [] ∧ (resetRef B).prob m = [] ∧ (resetRef B).probPath m = [] := by
+  cases p <;> simp [resetRef, Book.sel]
+
+/-- `constraints(m)` / `path_constraints(m)` hand the transcription member `m`'s own store, the rows retained
+    for member `m` and this priority's soft rows of member `m` — nothing of another member -/
+theorem book_handed_own_member {ρ : Type} (B B' : Book ρ) (m : Nat)
+    (h : B.point m = B'.point m ∧ B.path m = B'.path m ∧ B.prob m = B'.prob m ∧ B.probPath m = B'.probPath m
+      ∧ B.sub m = B'.sub m ∧ B.subPath m = B'.subPath m) :
+    constraintsRef B m = constraintsRef B' m ∧ pathConstraintsRef B m = pathConstraintsRef B' m := by
+  obtain ⟨h1, h2, h3, h4, h5, h6⟩ := h
+  simp [constraintsRef, pathConstraintsRef, h1, h2, h3, h4, h5, h6]
+
+/-- non-vacuity: two members, priority index 0, the goal `x ≥ 2` of `Proofs/C02Example.lean`; member 1's
+    results hold ε = 1/4, member 0's ε = 0: member 1's store gets `[-1, inf)`, member 0's `[2, inf)`, the path
+    store stays empty -/
+example :
+    let R : Reads := { results := fun m _ _ => if m = 1 then 1/4 else 0,
+                       fvalue := fun _ _ _ _ => -1 }
+    let B0 : Book Unit := ⟨fun _ => [], fun _ => [], fun _ => [], fun _ => [], fun _ => [], fun _ => []⟩
+    let B1 := softToHardRef {} 2 3 R 0 false [exG1] B0
+    (B1.point 1).get ("x", 0) = some ⟨EVal.fin (-1), EVal.pinf⟩
+    ∧ (B1.point 0).get ("x", 0) = some ⟨EVal.fin 2, EVal.pinf⟩
+    ∧ B1.point 2 = [] ∧ B1.path 1 = [] := by
+  decide +kernel
 
 end RtcVerif.C02
